@@ -351,7 +351,14 @@ def client_equiv(a, b):
             return False
         for k in fx:
             if k == "nudp":
-                if abs(int(fx[k]) - int(fy[k])) > 1 or (fx[k] != fy[k] and not fx.get("res", "").startswith(("err:Timeout", "dropped"))):
+                # `a` is the implementation, `b` the model (which has no clock noise). One more
+                # transmission than the model expects is tolerated when the query was answered all the
+                # same (the scripted answer came in behind an attempt deadline on a busy machine; a
+                # retransmission that is too EARLY is the timing oracle's business), and ±1 at the
+                # lifetime edge of a query that timed out
+                late_answer = fx.get("res", "").startswith("ok") and int(fx[k]) - int(fy[k]) == 1
+                if abs(int(fx[k]) - int(fy[k])) > 1 or (fx[k] != fy[k] and not late_answer
+                                                        and not fx.get("res", "").startswith(("err:Timeout", "dropped"))):
                     return False
             elif fx[k] != fy[k]:
                 return False
